@@ -914,6 +914,7 @@ func (v *vdrRun) loop() {
 			v.collectPreNames(v.preFinal)
 			v.valueChecks(v.preFinal)
 			v.guardChecks()
+			v.hfsChecks()
 			v.runWalkChecks(v.preFinal)
 			r.log("complete", "", string(st))
 			r.ps.VDRKill()
